@@ -1,5 +1,6 @@
 /* C20: one instantiation of every uatomic operation for every operand type.  Compiled four times from /repo/include:
  *   {x86 inline asm (default), CONFIG_RCU_USE_ATOMIC_BUILTINS} x {C, C++}, each with its own symbol prefix -DPFX=<name>.
+ * pre == 1: the old value is stored with a plain C assignment in the same function immediately before the operation (the compiler sees both).
  * typed == 1: operands are passed with the operand's own type; typed == 0: passed as (unsigned) long expressions, the way callers pass literals. */
 #include <stdint.h>
 #include <urcu/uatomic.h>
@@ -10,30 +11,35 @@
 #ifdef __cplusplus
 extern "C"
 #endif
-int CAT(PFX, _apply)(int type, int op, int typed, void *addr, uint64_t a, uint64_t b, uint64_t *ret);
+int CAT(PFX, _apply)(int type, int op, int typed, void *addr, uint64_t a, uint64_t b, uint64_t *ret, int pre, uint64_t init);
 
 #define RET_S(T, v) ((uint64_t)(int64_t)(T)(v))
 #define RET_U(T, v) ((uint64_t)(T)(v))
+/* PRE: the old value is written by an ordinary C assignment immediately before the operation, in straight-line code, as callers do */
+#define OPS(T, RET, WIDE, PRE) \
+	switch (op) { \
+	case UOP_SET: PRE if (typed) uatomic_set(p, (T)a); else uatomic_set(p, (WIDE)a); return 0; \
+	case UOP_READ: PRE *ret = RET(T, uatomic_read(p)); return 1; \
+	case UOP_XCHG: PRE if (typed) *ret = RET(T, uatomic_xchg(p, (T)a)); else *ret = RET(T, uatomic_xchg(p, (WIDE)a)); return 1; \
+	case UOP_CMPXCHG: PRE *ret = RET(T, uatomic_cmpxchg(p, (T)a, (T)b)); return 1; \
+	case UOP_ADD_RETURN: PRE if (typed) *ret = RET(T, uatomic_add_return(p, (T)a)); else *ret = RET(T, uatomic_add_return(p, (WIDE)a)); return 1; \
+	case UOP_SUB_RETURN: PRE if (typed) *ret = RET(T, uatomic_sub_return(p, (T)a)); else *ret = RET(T, uatomic_sub_return(p, (WIDE)a)); return 1; \
+	case UOP_ADD: if (typed) { PRE uatomic_add(p, (T)a); } else { PRE uatomic_add(p, (WIDE)a); } return 0; \
+	case UOP_SUB: if (typed) { PRE uatomic_sub(p, (T)a); } else { PRE uatomic_sub(p, (WIDE)a); } return 0; \
+	case UOP_INC: PRE uatomic_inc(p); return 0; \
+	case UOP_DEC: PRE uatomic_dec(p); return 0; \
+	case UOP_AND: if (typed) { PRE uatomic_and(p, (T)a); } else { PRE uatomic_and(p, (WIDE)a); } return 0; \
+	case UOP_OR: if (typed) { PRE uatomic_or(p, (T)a); } else { PRE uatomic_or(p, (WIDE)a); } return 0; \
+	case UOP_LOAD: PRE *ret = RET(T, uatomic_load(p)); return 1; \
+	case UOP_STORE: PRE uatomic_store(p, (T)a); return 0; \
+	}
+#define NOPRE
 #define BODY(T, RET, WIDE) do { \
 	T *p = (T *)addr; \
-	switch (op) { \
-	case UOP_SET: if (typed) uatomic_set(p, (T)a); else uatomic_set(p, (WIDE)a); return 0; \
-	case UOP_READ: *ret = RET(T, uatomic_read(p)); return 1; \
-	case UOP_XCHG: if (typed) *ret = RET(T, uatomic_xchg(p, (T)a)); else *ret = RET(T, uatomic_xchg(p, (WIDE)a)); return 1; \
-	case UOP_CMPXCHG: *ret = RET(T, uatomic_cmpxchg(p, (T)a, (T)b)); return 1; \
-	case UOP_ADD_RETURN: if (typed) *ret = RET(T, uatomic_add_return(p, (T)a)); else *ret = RET(T, uatomic_add_return(p, (WIDE)a)); return 1; \
-	case UOP_SUB_RETURN: if (typed) *ret = RET(T, uatomic_sub_return(p, (T)a)); else *ret = RET(T, uatomic_sub_return(p, (WIDE)a)); return 1; \
-	case UOP_ADD: if (typed) uatomic_add(p, (T)a); else uatomic_add(p, (WIDE)a); return 0; \
-	case UOP_SUB: if (typed) uatomic_sub(p, (T)a); else uatomic_sub(p, (WIDE)a); return 0; \
-	case UOP_INC: uatomic_inc(p); return 0; \
-	case UOP_DEC: uatomic_dec(p); return 0; \
-	case UOP_AND: if (typed) uatomic_and(p, (T)a); else uatomic_and(p, (WIDE)a); return 0; \
-	case UOP_OR: if (typed) uatomic_or(p, (T)a); else uatomic_or(p, (WIDE)a); return 0; \
-	case UOP_LOAD: *ret = RET(T, uatomic_load(p)); return 1; \
-	case UOP_STORE: uatomic_store(p, (T)a); return 0; \
-	} } while (0)
+	if (pre) { OPS(T, RET, WIDE, *p = (T)init;) } else { OPS(T, RET, WIDE, NOPRE) } \
+	} while (0)
 
-int CAT(PFX, _apply)(int type, int op, int typed, void *addr, uint64_t a, uint64_t b, uint64_t *ret)
+int CAT(PFX, _apply)(int type, int op, int typed, void *addr, uint64_t a, uint64_t b, uint64_t *ret, int pre, uint64_t init)
 {
 	switch (type) {
 	case UT_S8: BODY(signed char, RET_S, long); break;
